@@ -85,6 +85,7 @@ fn main() {
 								Some("kind_set") => kindv::replay_set(&mut rep, &rec),
 								Some("kind_ops") => kindv::replay_ops(&mut rep, &rec),
 								Some("kind_iter") => kindv::replay_iter(&mut rep, &rec),
+								Some("access") => kindv::replay_access(&mut rep, &rec),
 								Some(k) => tool_error(&format!("unknown vector kind {k}")),
 								None => (),
 							}
